@@ -18,15 +18,16 @@ CFG = ("INIT Init\nNEXT Next\nCONSTRAINT Emit\nINVARIANT Laws\nCONSTANTS\n"
        " MaxBatch = {mb}\n Lattice <- MCLattice\n Ratios = {{1, 2}}\n"
        "CHECK_DEADLOCK FALSE\n")
 TRACE = "INIT TInit\nNEXT TStep\nCONSTRAINT Report\nCHECK_DEADLOCK FALSE\n"
-NODES = np.array([[0, 0, 1], [6, 0, 2], [0, 6, 4], [2, 2, 3]], dtype=float)
+NODES = {1: np.array([[0, 0, 1], [6, 0, 2], [0, 6, 4], [2, 2, 3]], dtype=float),
+         2: np.array([[1, 1, 2], [7, 1, 1], [1, 7, 3], [3, 3, 5]], dtype=float)}
 META = dict(lutmod.META, identifier="VERIF-2D-TRI-01",
             **{"column features": ["area_um", "deform", "emodulus"]})
 
 
-def lut_array():
-    arr = NODES.copy()
-    arr[:, 0] = 20 + 10 * NODES[:, 0]
-    arr[:, 1] = 0.01 + 0.02 * NODES[:, 1]
+def lut_array(which=1):
+    arr = NODES[which].copy()
+    arr[:, 0] = 20 + 10 * NODES[which][:, 0]
+    arr[:, 1] = 0.01 + 0.02 * NODES[which][:, 1]
     return arr
 
 
@@ -39,8 +40,14 @@ def routes(root):
         p = lutmod.write_lut(root / "tri.txt", lut_array(), "VERIF-2D-TRI-01")
         if "VERIF-2D-TRI-01" not in load.EXTERNAL_LUTS:
             load.register_lut(p)
-        _ROUTES.update({"array+meta": (lut_array(), dict(META)),
-                        "path": p, "identifier": "VERIF-2D-TRI-01"})
+        # the second table carries the SAME identifier in its metadata (a
+        # modified copy of a table): array+meta and path routes only
+        p2 = lutmod.write_lut(root / "tri2.txt", lut_array(2),
+                              "VERIF-2D-TRI-01")
+        _ROUTES.update({1: {"array+meta": (lut_array(), dict(META)),
+                            "path": p, "identifier": "VERIF-2D-TRI-01"},
+                        2: {"array+meta": (lut_array(2), dict(META)),
+                            "path": p2}})
     return _ROUTES
 
 
@@ -53,10 +60,11 @@ def _case(job):
     area = np.array([wr * wr * (20.0 + 10 * p[0]) for p in pts])
     defo = np.array([0.01 + 0.02 * p[1] for p in pts])
     out = []
-    rts = routes(root)
-    name = sorted(rts)[hash(str(case["batch"])) % 3]
+    which = par_["lut"]
+    rts = routes(root)[which]
+    name = sorted(rts)[hash(str(case["batch"])) % len(rts)]
     lut_data = rts[name]
-    lut_before = lut_array()
+    lut_before = lut_array(which)
     a0, d0 = area.copy(), defo.copy()
     kw = dict(medium=15.0 * vr, channel_width=20.0 * wr,
               flow_rate=0.04 * qr, px_um=0, temperature=None,
@@ -87,7 +95,9 @@ def _case(job):
             if onhull and math.isnan(g):
                 ok = True      # points on the hull edge may fall outside
         if not ok:
-            out.append(("%s (%s route)" % (what, name),
+            out.append(("%s (%s route%s)" % (
+                what, name, "" if which == 1 else
+                ", second table with the same identifier"),
                         "point %s par %s: got %r expected %s" % (
                             pts[i], par_, g, exp)))
         s = single[i]
